@@ -77,5 +77,9 @@ N_NoOps == {O("ufunc", <<>>)}
 N_OverRoots == {[cls |-> "BasebandSignal", sh |-> <<2, 2, 1>>, back |-> "np", ch |-> Single(<<2, 2, 1>>)]}
 N_OverOps == {O("to_dask", <<>>), O("fft_axis", <<1>>)}
 N_OverTags == {"fft"}
+\* same-object histories and runs in the middle: look, change / transform, look again
+GR_Roots == RootsOf({<<4, 2, 1>>}, 2) \cup ReaderRoots({<<4, 2, 1>>}, 2)
+GR_Ops == {O("ufunc", <<>>), O("iufunc", <<>>), O("fft_axis", <<1>>), O("tslice", <<1, None, None>>),
+           O("time_shift", <<1, -6>>), O("rechunk", <<1>>)}
 None_ == {}
 =============================================================================
